@@ -1769,6 +1769,11 @@ Example ex_headers :
   = Some [[CNum 1; CSym [97; 10; 98]]].
 Proof. split; vm_compute; reflexivity. Qed.
 
+Example ex_simple_delims :
+  simple_delim 9 = true /\ simple_delim 124 = true /\ simple_delim 59 = true /\ simple_delim 32 = true /\
+  simple_delim 44 = false /\ simple_delim 49 = false /\ simple_delim 13 = false.
+Proof. repeat split; vm_compute; reflexivity. Qed.
+
 (** The number lemmas at the extremes. *)
 Example ex_numbers :
   fact_signed (dec (-2147483648)) = Some (-2147483648)%Z /\ fact_unsigned (dec 4294967295) = Some 4294967295%Z /\
